@@ -271,6 +271,9 @@ func New(opt Options) (*Cluster, error) {
 		if st, err := os.Stat("/dev/shm"); err == nil && st.IsDir() {
 			base = "/dev/shm"
 		}
+		if b := os.Getenv("VERIF_SHM"); b != "" {
+			base = b
+		}
 		d, err := os.MkdirTemp(base, "verif-cluster-")
 		if err != nil {
 			return nil, err
